@@ -1290,3 +1290,41 @@ def transparent_sib(progs):
                                    'perform the same search (different result for equivalent keys, or a different number of comparisons)' % name,
                                    where=h['pname'], unit=prog.uname))
     return rr
+
+
+# ------------------------------------------------------------------------------ ARROW-STAR
+def arrow_star(progs):
+    """it->m must be (*it).m: operator-> of every amc iterator class returns the address of what its operator* returns."""
+    rr = RuleResult('ARROW-STAR', 'operator-> of each amc iterator class designates the object operator* designates: it takes the address of operator*(), '
+                                  'or of the very expression operator* returns')
+    for prog in progs:
+        by_cls = {}
+        for f in prog.amc_functions():
+            if f.get('kind') == 'method' and f.get('body') is not None and f.get('op') in ('*', '->') and not f.get('params'):
+                by_cls.setdefault(f.get('cls'), {})[f['op']] = f
+        for cls_, d in by_cls.items():
+            if '*' not in d or '->' not in d:
+                continue
+            star, arrow = d['*'], d['->']
+
+            def ret_expr(g):
+                rs = [n for n in walk(g['body']) if n.get('k') == 'ret' and n.get('e') is not None]
+                return rs[0]['e'] if len(rs) == 1 else None
+            ea, es = ret_expr(arrow), ret_expr(star)
+            ok = False
+            if ea is not None:
+                if any(c.get('k') == 'call' and c.get('fn') == star['id'] for c in walk(ea)):
+                    ok = True       # &**this / addressof(operator*())
+                else:
+                    x = A.strip(ea)
+                    if x.get('k') == 'un' and x.get('op') == '&':
+                        x = x.get('sub')
+                    elif x.get('k') == 'call' and A.cshort(x) in ('addressof', '__addressof') and x.get('args'):
+                        x = x['args'][0]
+                    ok = es is not None and A.struct_eq(A.strip(x), A.strip(es))
+            rr.instance('%s|%s' % (arrow['key'], (cls_ or '')[:90]), {'class': (cls_ or '')[:140], 'arrow_is_address_of_star': ok})
+            if not ok:
+                rr.add(Finding('ARROW-STAR', '%s' % arrow['key'], arrow['loc'],
+                               'operator-> does not return the address of what operator* returns: it->m and (*it).m designate different elements',
+                               where=arrow['pname'], unit=prog.uname))
+    return rr
